@@ -9,13 +9,22 @@
   What is proved here for *all* coordinates and record lengths:
     overlap / containment / distance (line and ring, single- and multi-part, incl. origin-spanning)
     connect on a linear record (exact hull, argument order, idempotence, strand rule)
-    connect of two single-part locations on a ring (covers, well-formed, ≤ hull, shortest arc when < half)
+    connect on a ring for ANY non-empty list of single-part locations and origin-spanning spans
+      (`RingIn`): never fails, covers every input, well-formed span, never longer than the line hull,
+      inside every covering span shorter than half the record (hence the shortest covering arc whenever
+      one shorter than half exists), independent of the argument order, idempotent — via the closed form
+      `connR` of Proofs/LocConnectRing{N,In,Cover,Hull,Short,Perm}.lean; the two-input theorem
+      `connect_ring_two` (explicit gap formula) is kept
     offset of a single-part location and of an origin-spanning span on a ring (rotation of the same bases)
     extension of a single-part location on a linear and on a circular record (exactly the bases within the distance)
+    extension of an origin-spanning span on a circular record: exactly the bases within the distance for every
+      d ≥ 0; a well-formed span under the distance cap of `_extend_area_location` (without the cap the code can
+      return three overlapping parts: `extend_ring_area_three_parts_start/_end`, replayed on the real code)
     the feature ordering is a strict weak order
   Carried by the exhaustive small-scope correspondence + executable set-of-bases spec only
-  (see DESIGN.md): connect on a ring for more than two or for origin-spanning inputs (cover / well-formed /
-  shortest arc), extension of multi-part locations, offset of multi-exon gene locations.
+  (see DESIGN.md): connect on a ring for multi-exon (non-bridging, ≥ 2 parts) or ≥ 3-part origin-bridging
+  inputs; the identification of "shortest covering span" with the executable `shortestArc L (canon …)`
+  formula used by the driver; extension of multi-exon locations; offset of multi-exon gene locations.
 -/
 import ASV.Proofs.LocOrder
 import ASV.Proofs.LocString
@@ -315,5 +324,46 @@ example : offsetLocation (.simple ⟨5, 10, .fwd⟩) 10 20 = .ok (.simple ⟨15,
 /-- the wrap case of `connect_ring_two` is reachable: 60 bases between along the line, 25 over the origin -/
 example : connect [.simple ⟨5, 20, .fwd⟩, .simple ⟨80, 90, .rev⟩] (some 100) = .ok (.compound [⟨80, 100, .fwd⟩, ⟨0, 20, .fwd⟩]) := by rfl
 example : offsetLocation (.simple ⟨5, 10, .fwd⟩) 12 20 = .ok (.compound [⟨17, 20, .fwd⟩, ⟨0, 2, .fwd⟩]) := by rfl
+
+/-- the hypotheses of the n-input ring theorems are satisfiable: three single parts (mixed strands) … -/
+example : ∀ l ∈ [Loc.simple ⟨5, 20, .fwd⟩, .simple ⟨80, 90, .rev⟩, .simple ⟨30, 40, .fwd⟩], RingInStrict 100 l := by
+  intro l hl
+  simp only [List.mem_cons, List.mem_nil_iff, or_false] at hl
+  rcases hl with rfl | rfl | rfl <;> exact Or.inl ⟨_, rfl, by decide, by decide, by decide⟩
+/-- … connected over the origin (60 bases of line gap vs. 25 over the origin) -/
+example : connect [.simple ⟨5, 20, .fwd⟩, .simple ⟨80, 90, .rev⟩, .simple ⟨30, 40, .fwd⟩] (some 100)
+    = .ok (.compound [⟨80, 100, .fwd⟩, ⟨0, 40, .fwd⟩]) := by rfl
+/-- the same three in another order -/
+example : connect [.simple ⟨30, 40, .fwd⟩, .simple ⟨5, 20, .fwd⟩, .simple ⟨80, 90, .rev⟩] (some 100)
+    = .ok (.compound [⟨80, 100, .fwd⟩, ⟨0, 40, .fwd⟩]) := by rfl
+/-- three single parts that stay on the line: the hull with the common strand -/
+example : connect [.simple ⟨5, 20, .rev⟩, .simple ⟨40, 45, .rev⟩, .simple ⟨30, 40, .rev⟩] (some 100)
+    = .ok (.simple ⟨5, 45, .rev⟩) := by rfl
+/-- four inputs, one of them origin-spanning -/
+example : ∀ l ∈ [areaTwo 90 10 100 .fwd, .simple ⟨20, 30, .fwd⟩, .simple ⟨70, 80, .rev⟩, .simple ⟨85, 88, .fwd⟩],
+    RingInStrict 100 l := by
+  intro l hl
+  simp only [List.mem_cons, List.mem_nil_iff, or_false] at hl
+  rcases hl with rfl | rfl | rfl | rfl
+  · exact Or.inr (Or.inl ⟨90, 10, .fwd, by decide, rfl, by decide, by decide, by decide⟩)
+  all_goals exact Or.inl ⟨_, rfl, by decide, by decide, by decide⟩
+example : connect [areaTwo 90 10 100 .fwd, .simple ⟨20, 30, .fwd⟩, .simple ⟨70, 80, .rev⟩, .simple ⟨85, 88, .fwd⟩] (some 100)
+    = .ok (.compound [⟨70, 100, .fwd⟩, ⟨0, 30, .fwd⟩]) := by rfl
+/-- a reverse-strand origin-spanning gene in Biopython's part order with two more inputs -/
+example : connect [areaTwoRev 90 10 100, .simple ⟨20, 30, .fwd⟩, .simple ⟨70, 80, .rev⟩] (some 100)
+    = .ok (.compound [⟨70, 100, .fwd⟩, ⟨0, 30, .fwd⟩]) := by rfl
+/-- an origin-spanning input together with one covering the rest: the whole record -/
+example : connect [areaTwo 90 10 100 .fwd, .simple ⟨5, 95, .fwd⟩, .simple ⟨70, 80, .rev⟩] (some 100)
+    = .ok (.simple ⟨0, 100, .fwd⟩) := by rfl
+/-- a covering span shorter than half the record exists for the four inputs above (60 < 100 / 2 fails, so take
+    a tighter list): `[95, 100) + [0, 30)` covers `[95,100)+[0,10)`, `[20,30)`; 35·2 < 100 -/
+example : areaWF 100 100 (.compound [⟨95, 100, .fwd⟩, ⟨0, 30, .fwd⟩]) = true ∧
+    2 * (Loc.compound [⟨95, 100, .fwd⟩, ⟨0, 30, .fwd⟩]).len < 100 ∧
+    connect [areaTwo 95 10 100 .fwd, .simple ⟨20, 30, .fwd⟩] (some 100) = .ok (.compound [⟨95, 100, .fwd⟩, ⟨0, 30, .fwd⟩]) :=
+  ⟨by rfl, by decide, by rfl⟩
+/-- extension of an origin-spanning span: both ends move, the result stays a two-part span -/
+example : extendLocation (areaTwo 90 10 100 .fwd) 15 100 true = .ok (.compound [⟨75, 100, .fwd⟩, ⟨0, 25, .fwd⟩]) := by rfl
+/-- … and the whole-record branch -/
+example : extendLocation (areaTwo 60 40 100 .fwd) 11 100 true = .ok (.simple ⟨0, 100, .fwd⟩) := by rfl
 
 end ASV.C04
